@@ -22,6 +22,7 @@ def run(s):
     K.huge_cases(s, 2 if s.tier == 'quick' else 12)
     K.large_cases(s, 24 if s.tier == 'quick' else 600, 'item')
     K.pair_histories(s)
+    K.reuse_objects(s, B.ITEM_KINDS, 110 if s.tier == 'quick' else 6000)
     K.item_grid(s, 3, pretties=(True,), kmax=2, full=False, inters=(False,), item_names=K.LONG_NAMES)
     if s.tier == 'quick':
         K.item_grid(s, 4, pretties=(False,), kmax=3, full=False)
